@@ -151,6 +151,13 @@ func build(r Round) *flamego.Flame {
 	f.Get("/api/{v}", echo("api-v1", "")...).Headers("X-Api", "^v1$")
 	f.Get("/api/{w}", echo("api-any", "")...)
 	f.Routes("/multi/{id}", "GET,POST", echo("multi", "multi")...).Name("multi")
+	// every request builds this URL from one and the same list of pairs, which
+	// is the application's own (it has room to spare behind its last element)
+	sharedPairs := append(make([]string, 0, 16), "name", "alice", "withOptional", "true", "tab", "keys")
+	f.Get("/shared/{x}", func(c flamego.Context, t *token) string {
+		yield()
+		return "shared|" + c.URLPath("usertab", sharedPairs...) + "|token=" + t.v
+	})
 	f.Group("/g/{org}", func() {
 		f.Combo("/r/{repo}", func(c flamego.Context) { yield() }).Get(echo("combo-get", "")...).Post(echo("combo-post", "")...)
 	}, func(c flamego.Context) { yield() })
@@ -319,7 +326,7 @@ var seg = []string{"a", "bob", "x.y", "12", "%41", "main.go", "src", "lib", "dee
 func genReq(t *rapid.T, n int) Req {
 	s := func() string { return seg[rapid.IntRange(0, len(seg)-1).Draw(t, "seg")] }
 	q := Req{M: "GET", Token: fmt.Sprintf("tok-%d", n)}
-	switch rapid.IntRange(0, 18).Draw(t, "rk") {
+	switch rapid.IntRange(0, 19).Draw(t, "rk") {
 	case 0:
 		q.P = "/"
 	case 1:
@@ -359,6 +366,8 @@ func genReq(t *rapid.T, n int) Req {
 		q.M = []string{"GET", "POST"}[rapid.IntRange(0, 1).Draw(t, "cm")]
 	case 12:
 		q.P = "/nosuch/" + s()
+	case 18:
+		q.P = "/shared/" + s()
 	case 16:
 		q.P = "/render/" + s()
 	case 17:
